@@ -524,13 +524,25 @@ def stream_sync(ctx, reqs):
         else:
             mod = [rng.randint(0, n + 1) for _ in range(rng.randint(0, n + 1))]
         shim = OsShim('sorted', single=dirs)
+        raised = None
         with shim_os(shim):
             gen = FolderIO('/nonexistent-root').walk()
             root_io, folder_ios, file_ios = next(gen)
             orig = list(folder_ios)
             folder_ios[:] = [orig[k] if k < n else FolderIO('/foreign-%d' % k) for k in mod]
-            rest = list(gen)
-        impl = shim.after
+            try:
+                rest = list(gen)
+            except Exception as e:   # noqa: FolderIO.walk raised on a legitimate in-place pruning
+                raised = '%s at %s' % common.exc_site(e)
+        impl = shim.after if raised is None else {'raised': raised}
+        if raised is not None and kind == 'sub':
+            # the caller only REMOVED folders from the list it was handed (what recurse_find_python_folders_and_files
+            # does for ignored folders): the walk must go on with the kept ones
+            ctx.fail('sync', 'FolderIO.walk raises after the caller pruned the folder list in place: the project walk '
+                     '(and every search over it) dies there', {'dirs': dirs, 'modified': mod, 'kind': kind},
+                     expected='the walk descends into exactly the kept folders', observed={'raised': raised},
+                     how="gen = FolderIO(root).walk(); _, folder_ios, _ = next(gen); folder_ios[:] = kept; list(gen)  "
+                         "(os.walk replaced by a shim listing the given directories)")
         reqs.append({'op': 'sync', 'dirs': dirs, 'modified': mod})
         cases.append((('sync', {'dirs': dirs, 'modified': mod, 'kind': kind}), impl))
     return cases
@@ -596,11 +608,15 @@ def run_walk_impl(root, mode, except_paths):
     from jedi.file_io import FolderIO
     with shim_os(None if mode == 'real' else OsShim(mode)):
         out = []
-        for folder_io, file_io in recurse_find_python_folders_and_files(FolderIO(root), except_paths):
-            if file_io is None:
-                out.append([False, folder_io.path])
-            else:
-                out.append([True, str(file_io.path)])
+        try:
+            for folder_io, file_io in recurse_find_python_folders_and_files(FolderIO(root), except_paths):
+                if file_io is None:
+                    out.append([False, folder_io.path])
+                else:
+                    out.append([True, str(file_io.path)])
+        except Exception as e:   # noqa: the walk itself raised - an outcome to judge, not a harness failure
+            cls, site = common.exc_site(e)
+            out.append(['RAISED', '%s at %s' % (cls, site)])
     return out
 
 
@@ -612,7 +628,15 @@ def walk_request(root, mode, except_paths):
 
 def walk_oracle(ctx, t, root, mode, except_paths, impl, case):
     """negative / completeness at the walk level (direct, from the generator's tree)"""
-    yielded = {p for is_file, p in impl if is_file}
+    raised = [p for is_file, p in impl if is_file == 'RAISED']
+    if raised:
+        # a search over a project whose walk raises reports nothing of the files behind that point
+        ctx.fail('walk-complete', 'the directory walk raises: no file behind that point is searched',
+                 dict(case, cause='walk-raises'), expected='every python file outside ignored places is yielded',
+                 observed={'raised': raised[0], 'yielded_before': len(impl) - 1},
+                 how='recurse_find_python_folders_and_files(FolderIO(root)) on the materialised tree')
+        return
+    yielded = {p for is_file, p in impl if is_file is True}
     for rel, node in all_dirs(t):
         for f in node['files']:
             nm = f['name']
